@@ -155,6 +155,8 @@ def run(ctx, driver):
         ctx.evaluations += 1
         if res.get("timeout") or res.get("skipped_budget") or res.get("harness_error"):
             ctx.count("skipped")
+            if res.get("harness_error"):
+                ctx.cov.setdefault("harness_errors", []).append(res["harness_error"][:300])
             continue
         ctx.count("kind:" + case["kind"].split("-slot")[0])
         ctx.count("order:%d" % case["order"])
